@@ -223,6 +223,134 @@ fn io_faults(ctx: &mut Ctx, t: bool) {
     }
 }
 
+/// A seekable byte source that fails a `read` exactly at byte `offset` of pass `pass`
+/// (a pass ends when the reader is sought back to 0).
+struct FaultyReader {
+    data: Arc<Vec<u8>>,
+    pos: usize,
+    pass: usize,
+    fail_at: Option<(usize, usize)>,
+    delivered: Arc<Mutex<(bool, usize)>>, // (fault delivered, passes started)
+}
+
+impl io::Read for FaultyReader {
+    fn read(&mut self, buf: &mut [u8]) -> io::Result<usize> {
+        let mut end = (self.pos + buf.len()).min(self.data.len());
+        if let Some((p, off)) = self.fail_at {
+            if p == self.pass {
+                if self.pos == off {
+                    self.delivered.lock().unwrap().0 = true;
+                    return Err(io::Error::other("INJECTED-READER-FAULT"));
+                }
+                if self.pos < off && off < end {
+                    end = off; // short read, so that the next read starts exactly at the fault offset
+                }
+            }
+        }
+        let n = end - self.pos;
+        buf[..n].copy_from_slice(&self.data[self.pos..end]);
+        self.pos = end;
+        Ok(n)
+    }
+}
+
+impl io::Seek for FaultyReader {
+    fn seek(&mut self, to: io::SeekFrom) -> io::Result<u64> {
+        match to {
+            io::SeekFrom::Start(0) => {
+                self.pos = 0;
+                self.pass += 1;
+                self.delivered.lock().unwrap().1 += 1;
+                Ok(0)
+            }
+            io::SeekFrom::Current(0) => Ok(self.pos as u64),
+            _ => Err(io::Error::other("unsupported seek")),
+        }
+    }
+}
+
+/// Keys read as lines through the crate's own LineLender over a reader that fails at every byte offset
+/// (in particular exactly at line boundaries and at end of input) of every pass.
+fn line_source_faults(ctx: &mut Ctx, t: bool) {
+    use sux::utils::LineLender;
+    let sizes: &[usize] = if t { &[1, 2, 5, 16] } else { &[1, 2, 5] };
+    for &n in sizes {
+        let keys: Vec<String> = (0..n).map(|i| format!("k{i}")).collect();
+        let text: Arc<Vec<u8>> = Arc::new(keys.iter().flat_map(|k| k.bytes().chain([b'\n'])).collect());
+        let vals: Arc<Vec<usize>> = Arc::new((0..n).map(|i| i % 7).collect());
+        for filter in [false, true] {
+            let run = |fail_at: Option<(usize, usize)>| -> (Result<usize, String>, bool, usize) {
+                let st = Arc::new(Mutex::new((false, 1usize)));
+                let rd = FaultyReader { data: text.clone(), pos: 0, pass: 0, fail_at, delivered: st.clone() };
+                let kl = LineLender::new(io::BufReader::with_capacity(16, rd));
+                let out = if filter {
+                    VBuilder::<usize, BitFieldVec<usize>>::default()
+                        .expected_num_keys(n)
+                        .try_build_filter::<str>(kl, 9, no_logging![])
+                        .map(|f| keys.iter().filter(|k| !f.contains(k.as_str())).count() + usize::from(f.len() != n))
+                        .map_err(|e| format!("{e:#}"))
+                } else {
+                    let (vl, _) = FaultyLender::new(vals.clone(), Fault::None, "unused");
+                    VBuilder::<usize, BitFieldVec<usize>>::default()
+                        .expected_num_keys(n)
+                        .try_build_func::<str>(kl, vl, no_logging![])
+                        .map(|f| (0..n).filter(|&i| f.get(keys[i].as_str()) != vals[i]).count() + usize::from(f.len() != n))
+                        .map_err(|e| format!("{e:#}"))
+                };
+                let g = st.lock().unwrap();
+                (out, g.0, g.1)
+            };
+            if !ctx.common_case(|| format!("VBuilder::<fault-free reference build over LineLender> filter={filter} n={n}")) {
+                continue;
+            }
+            let (r0, _, passes) = match guard(|| run(None)) {
+                Outcome::Ret(x) => x,
+                Outcome::Panic(m) => {
+                    ctx.violation("C17|VBuilder::<fault-free build>|panic", format!("LineLender source n={n}: {m}"));
+                    continue;
+                }
+            };
+            if r0 != Ok(0) {
+                ctx.violation("C17|VBuilder::<fault-free build>|wrong-result", format!("LineLender source n={n} filter={filter}: {r0:?}"));
+                continue;
+            }
+            let mut ps: Vec<usize> = (0..passes.min(if t { 6 } else { 3 })).collect();
+            if !ps.contains(&(passes - 1)) {
+                ps.push(passes - 1);
+            }
+            for p in ps {
+                for off in 0..=text.len() {
+                    let boundary = off == text.len() || off == 0 || text[off - 1] == b'\n';
+                    if !ctx.case(|| format!("VBuilder::try_build keys through LineLender filter={filter} n={n} passes={passes} fault: the reader fails at byte {off} of pass {p} ({})", if boundary { "a line boundary" } else { "inside a line" })) {
+                        continue;
+                    }
+                    ctx.nontrivial();
+                    match guard(|| run(Some((p, off)))) {
+                        Outcome::Panic(m) => ctx.violation("C17|LineLender->VBuilder::try_build|panic-on-source-error", format!("n={n} byte {off} pass {p}: {m}")),
+                        Outcome::Ret((out, delivered, _)) => {
+                            ctx.count(if delivered { "reader_faults_delivered" } else { "reader_faults_not_reached" });
+                            match (&out, delivered) {
+                                (Ok(0), false) => {}
+                                (Ok(w), false) => ctx.violation("C17|LineLender->VBuilder::try_build|wrong-function", format!("n={n} byte {off} pass {p}: fault never reached but {w} keys wrong")),
+                                (Ok(w), true) => ctx.violation(
+                                    "C17|LineLender->VBuilder::try_build|ok-after-source-error",
+                                    format!("n={n} filter={filter}: the reader failed at byte {off} of pass {p} ({}) but the build returned Ok ({w} keys wrong or missing)", if boundary { "a line boundary" } else { "inside a line" }),
+                                ),
+                                (Err(e), true) => {
+                                    if !e.contains("INJECTED-") {
+                                        ctx.violation("C17|LineLender->VBuilder::try_build|source-error-not-returned", format!("n={n} byte {off} pass {p}: different error: {e}"));
+                                    }
+                                }
+                                (Err(e), false) => ctx.violation("C17|LineLender->VBuilder::try_build|spurious-error", format!("n={n} byte {off} pass {p}: {e}")),
+                            }
+                        }
+                    }
+                }
+            }
+        }
+    }
+}
+
 fn duplicates(ctx: &mut Ctx, t: bool) {
     let mut sizes: Vec<usize> = vec![2, 3, 5, 12];
     if t {
@@ -293,6 +421,7 @@ fn main() {
     start_watchdog(60);
     let t = ctx.thorough();
     io_faults(&mut ctx, t);
+    line_source_faults(&mut ctx, t);
     duplicates(&mut ctx, t);
     ctx.finish();
 }
